@@ -368,6 +368,15 @@ class SpecEval:
         ctx.facts.extend(facts)
         return VInt(val)
 
+    def fn_be_at(self, n, ctx):
+        """be_at(b, off, n): big-endian value of b[off:off+n] (same term shape as struct.unpack_from)"""
+        b = self.ev(n.args[0], ctx)
+        off = self.i(self.ev(n.args[1], ctx)).z
+        k = self.i(self.ev(n.args[2], ctx)).conc()
+        val, facts = ops.be_value(b.z, off, k)
+        ctx.facts.extend(facts)
+        return VInt(val)
+
     def fn_zeros(self, n, ctx):
         k = self.i(self.ev(n.args[0], ctx))
         v, errs = ops.bytes_repeat(VBytes(b'\x00'), k)
